@@ -138,6 +138,8 @@ package simplefixgo
 //@     inst j = old(outN) + j
 //@   ensures[C19,C10,C08,C05] @all imp(err == nil, outN == old(outN) + len(messages))
 //@   ensures[C19,C10,C08,C05] @each imp(err == nil && 0 <= j && j < len(messages), sel(outAt, old(outN) + j) == mBytes(nth(messages, j)))
+//@   ensures[C19,C10] @partial outN >= old(outN) && outN <= old(outN) + len(messages)
+//@   ensures[C19,C10] @partialorder imp(0 <= j && j < outN - old(outN), sel(outAt, old(outN) + j) == mBytes(nth(messages, j)))
 //@   loop 1:
 //@     lemma allNonNil_at(messages, iter)
 //@     invariant[C19,C10,C08,C05] @count 0 <= iter && iter <= len(messages) && outN == old(outN) + iter
@@ -163,12 +165,17 @@ package simplefixgo
 //@   call Range#2:
 //@     inst j = j
 //@     inst j = old(callN) + j
+//@     inst j = c1 - 1
 //@   witness all = mget(h.incomingHandlers.HandlerPool.handlers, AllMsgTypes)
 //@   witness own = mget(h.incomingHandlers.HandlerPool.handlers, fieldVal(string(msg), h.msgTypeTag))
 //@   ensures[C19,C18,C06,C07,C09,C10,C14,C15,C16] @nomsgtype (err == nil) == hasField(string(msg), h.msgTypeTag)
 //@   ensures[C19,C06,C07,C09,C10,C14,C15,C16] @allfirst imp(err == nil && 0 <= j && j < c1 - old(callN), sel(callAt, old(callN) + j) == nth(all, j))
 //@   ensures[C19,C18,C06,C07,C09,C10,C14,C15,C16] @thenown imp(err == nil && 0 <= j && j < callN - c1, sel(callAt, c1 + j) == nth(own, j))
 //@   ensures[C19,C06,C07,C09,C10,C14,C15,C16] @nothing imp(err != nil, callN == old(callN))
+//@   witness nAll = ite(mhas(h.incomingHandlers.HandlerPool.handlers, AllMsgTypes), len(all), 0)
+//@   witness nOwn = ite(mhas(h.incomingHandlers.HandlerPool.handlers, fieldVal(string(msg), h.msgTypeTag)), len(own), 0)
+//@   ensures[C19,C06,C07,C09,C10,C14,C15,C16] @allreached imp(err == nil && c1 - old(callN) < nAll, c1 > old(callN) && sel(callRet, c1 - 1) == 0)
+//@   ensures[C19,C06,C07,C09,C10,C14,C15,C16] @ownreached imp(err == nil && callN - c1 < nOwn, callN > c1 && sel(callRet, callN - 1) == 0)
 
 // A variable captured by a goroutine's closure is not assigned again by the spawner
 // (checked for every `go func(){...}()` of the module).
